@@ -318,7 +318,15 @@ def run_once(info, inputs):
     exc = None
     result = None
     try:
-        result = fn(**vals)
+        call_vals = dict(vals)
+        try:
+            import inspect as _insp
+            vk = [p_.name for p_ in _insp.signature(fn).parameters.values() if p_.kind == p_.VAR_KEYWORD]
+            if vk and isinstance(call_vals.get(vk[0]), dict):
+                call_vals.update(call_vals.pop(vk[0]))      # def f(self, **kwargs): the dict parameter is the keyword set
+        except (TypeError, ValueError):
+            pass
+        result = fn(**call_vals)
     except Exception as e:
         exc = e
     kind = info.get('kind')
